@@ -611,7 +611,7 @@ class QasmVisitor:
         param_list = []
         for param in operation.arguments:
             param_value = Qasm3ExprEvaluator.evaluate_expression(param)[0]
-            if isinstance(param_value, bool):
+            if isinstance(param_value, (bool, np.bool_)):
                 # a boolean used as a number is 0 or 1 (True / False do not print as OpenQASM)
                 param_value = int(param_value)
             param_list.append(param_value)
@@ -924,7 +924,7 @@ class QasmVisitor:
         logger.debug("Visiting phase operation '%s'", str(operation))
 
         evaluated_arg = Qasm3ExprEvaluator.evaluate_expression(operation.argument)[0]
-        if isinstance(evaluated_arg, bool):
+        if isinstance(evaluated_arg, (bool, np.bool_)):
             evaluated_arg = int(evaluated_arg)
         if inverse:
             evaluated_arg = -1 * evaluated_arg
